@@ -20,6 +20,7 @@ import os, subprocess, concurrent.futures
 import vlib
 
 PROP_MODULE = "GomlVerif.Props.GoCompile"
+SEM_FUEL = "400000"
 
 
 def _model_chunk(lines):
@@ -140,7 +141,14 @@ def evaluate(ctx):
         ctx.broken_ties.append(("model≠implementation (GoCompile.goFilePre ∘ Dce.eliminateDeadVars vs go_file)", f"{cid}: {what}"))
     # ---- behaviour oracle on the implementation's own output: Sem(ANF) vs Go.Sem(Go)
     sem_lines = [f"{pid}|{st}\t{sx}" for pid, d in stages.items() for st, sx in d.items()]
-    sem = c01.run_sem(ctx, sem_lines) if sem_lines else {}
+    sem = {}
+    if sem_lines:
+        # bounded fuel, in parallel: a back end that emits a diverging loop must not stall the check
+        jobs = 8
+        with concurrent.futures.ThreadPoolExecutor(max_workers=jobs) as ex:
+            for part in ex.map(lambda ch: c01.run_sem(ctx, ch, env={"GV_FUEL": SEM_FUEL}) if ch else {},
+                               [sem_lines[i::jobs] for i in range(jobs)]):
+                sem.update(part)
     gc = c01.gocheck(ctx, [f"{pid}\t{d['go']}" for pid, d in stages.items() if "go" in d])
     b = {"compared": 0, "equal": 0, "invalid_go_skipped": 0, "fuel_skipped": 0, "extern_skipped": 0, "anf_stuck_skipped": 0}
     for pid, d in stages.items():
@@ -182,6 +190,26 @@ def evaluate(ctx):
         "impl_oracle_failures": len(found),
     }
     return cov, found
+
+
+def replay_is_gocomp(path):
+    try:
+        import json
+        return json.load(open(path)).get("signature", {}).get("source") == "gocomp"
+    except Exception:
+        return False
+
+
+def add_to(ctx, prop, cov):
+    """what C01 / C02 / C09 call: run the gocomp machinery inside their own check, report the failures
+    that belong to `prop`, put the coverage under cov["gocomp"]"""
+    if ctx.replay and not replay_is_gocomp(ctx.replay):
+        return
+    gcov, found = evaluate(ctx)
+    for sig, what, payload in split_for_properties(found).get(prop, []):
+        ctx.report(sig, what, payload)
+    cov["gocomp"] = gcov
+    ctx.assumptions.append("go/compile.rs has its own model (Model/GoCompile.lean, Props/GoCompile.lean: compile_preserves, compile_wellformed, compile_order on InGoFragment) tied exactly by `gv gocomp`; outside the fragment the back end stays decided per program by this check's oracles")
 
 
 def split_for_properties(found):
